@@ -53,6 +53,8 @@ def main():
         if r.get('detected'):
             det += 1
         what = (meta.get('title', '') + ': ' + meta.get('needs_to_manifest', meta.get('what_breaks', '')))[:260].replace('|', '\\|').replace('\n', ' ')
+        if meta.get('lead_note'):
+            what += ' **Note:** ' + meta['lead_note'].replace('|', '\\|')
         L.append('| %s | %s | %s | %s | %s |' % (i, meta.get('property'), what, status, first.replace('|', '\\|')))
     L.append('\nDetected by the quick tier: %d of %d seeded changes.\n' % (det, len(ids)))
     # per-property families, bounds and assumptions as built (read from the spec.py files)
